@@ -26,18 +26,23 @@
    - The theorems about user tags are stated for [repaired] only; of /repo as it is they are false:
      user_tags_refuted_pinned_location.
 
-   [q_cache m q] is the answer of an Eups whose product stacks are m (noCache=False), [q_db w q]
+   [q_served w m q] is the answer of an Eups whose product stacks are m, in world w (noCache=False): the
+   loaded stack answers for the flavors it holds, the database files for any other flavor
+   (Eups._readDatabase, proposed_fixes/C07-unloaded-flavor-from-database); [q_cache m q] is the pinned
+   answer, which takes a flavor that was not loaded for a flavor without products
+   (coherent_refuted_pinned_unloaded_flavor); [q_db w q]
    the answer read from the version and chain files (noCache=True); queries: is a version
    declared, its directory and table, does it carry a tag, the version a tag designates, per stack
-   and over the path.  [uq_cache m q] / [uq_db w u q]: the same for the user tags of user u (does
+   and over the path.  [uq_served w m u q] ([uq_cache m q] pinned) / [uq_db w u q]: the same for the user tags of user u (does
    the version carry user tag t, the version t designates, per stack and over the path), read from
    the chain files of the tag directory of u.
 
    Hypotheses that stay in the statements:
    - clock_strict tick: every record effect and every cache-file write gets a stamp strictly
      later than the previous ones (refuted without it: coherent_refuted_coarse_clock);
-   - the query is about a flavor the loading instance consults (its own or a fall-back): an
-     Eups does not load, hence cannot answer for, other flavors (unconsulted_flavor_not_served);
+   - (user tags only) the query is about a flavor the loading instance consults, or no chain file of a
+     stack is named like the user tag: for a flavor that was not loaded findTaggedProduct reads
+     Database.getChainFile, which looks among the stack's own chain files first;
    - a user's data directory is not a stack's ups_db (u <> upsdb), and (in reachable) an
      administrator's instance only loads; user-tag answers are stated for instances that are not
      administrators (an administrator's instance holds no user tag, by design of the repair). *)
@@ -51,9 +56,9 @@ From Eupsv Require Import Proofs.CacheLib Proofs.CacheWt Proofs.CacheRebuild Pro
 (* whatever the history, whoever made it, a new process of any user and flavor answers every
    query through its cache as the database files do *)
 Theorem coherent : forall tick, clock_strict tick -> forall w, reachable tick repaired w ->
-  forall u loc fl q, u <> upsdb -> loc = u \/ loc = upsdb -> In (q_flavor q) (fallbacks fl) ->
-  q_cache (snd (load tick repaired w loc u fl)) q = q_db w q.
-Proof. intros tick CS w R u loc fl q Hu Hl Hq. apply coherent_load; assumption. Qed.
+  forall u loc fl q, u <> upsdb -> loc = u \/ loc = upsdb ->
+  q_served (fst (load tick repaired w loc u fl)) (snd (load tick repaired w loc u fl)) q = q_db w q.
+Proof. intros tick CS w R u loc fl q Hu Hl. apply coherent_load_served; assumption. Qed.
 Print Assumptions coherent.
 
 (* [repaired] = /repo + proposed_fixes/C07-*.diff.  On /repo as it is this clause is refuted
@@ -65,9 +70,10 @@ Print Assumptions coherent.
    user u answers every query about the user tags of u through its cache as the chain files of the tag
    directory of u (and the version files) do *)
 Theorem user_tags_coherent : forall tick, clock_strict tick -> forall w, reachable tick repaired w ->
-  forall u fl q, u <> upsdb -> In (uq_flavor q) (fallbacks fl) ->
-  uq_cache (snd (load tick repaired w u u fl)) q = uq_db w u q.
-Proof. intros tick CS w R u fl q Hu Hq. apply ucoherent_load; assumption. Qed.
+  forall u fl q, u <> upsdb ->
+  In (uq_flavor q) (fallbacks fl) \/ (forall s n, db_cfile (w_db w) s (n, uq_tag q) = None) ->
+  uq_served (fst (load tick repaired w u u fl)) (snd (load tick repaired w u u fl)) u q = uq_db w u q.
+Proof. intros tick CS w R u fl q Hu Hq. apply ucoherent_load_served; assumption. Qed.
 Print Assumptions user_tags_coherent.
 
 (* /repo as it is: removeVersion and the flavor set-up repaired, the four user-tag switches pinned *)
@@ -81,11 +87,11 @@ Proof. split; reflexivity. Qed.
    does, the tag directories stay empty *)
 Theorem coherent_whatever_the_user_tag_switches : forall tick, clock_strict tick ->
   forall vr, base_repaired vr -> forall w, reachable_nut tick vr w ->
-  forall u loc fl q, u <> upsdb -> loc = u \/ loc = upsdb -> In (q_flavor q) (fallbacks fl) ->
-  q_cache (snd (load tick vr w loc u fl)) q = q_db w q.
+  forall u loc fl q, u <> upsdb -> loc = u \/ loc = upsdb ->
+  q_served (fst (load tick vr w loc u fl)) (snd (load tick vr w loc u fl)) q = q_db w q.
 Proof.
-  intros tick CS vr B w R u loc fl q Hu Hl Hq. destruct (reachable_nut_repaired tick vr w B R) as [R' N].
-  rewrite (proj1 (load_nouc tick vr w loc u fl B N)). apply coherent_load; assumption.
+  intros tick CS vr B w R u loc fl q Hu Hl. destruct (reachable_nut_repaired tick vr w B R) as [R' N].
+  rewrite (proj1 (load_nouc tick vr w loc u fl B N)). apply coherent_load_served; assumption.
 Qed.
 Print Assumptions coherent_whatever_the_user_tag_switches.
 
@@ -161,10 +167,11 @@ Print Assumptions stale_is_rebuilt.
 Theorem crash_between_db_and_cache_detected : forall tick, clock_strict tick ->
   forall w, reachable tick repaired w ->
   forall p i g, p_user p <> upsdb -> (p_admin p = true -> p_ops p = []) -> p_crash p = Some (i, g, true) ->
-  forall u loc fl q, u <> upsdb -> loc = u \/ loc = upsdb -> In (q_flavor q) (fallbacks fl) ->
-  q_cache (snd (load tick repaired (run_proc tick repaired w p) loc u fl)) q = q_db (run_proc tick repaired w p) q.
+  forall u loc fl q, u <> upsdb -> loc = u \/ loc = upsdb ->
+  q_served (fst (load tick repaired (run_proc tick repaired w p) loc u fl))
+           (snd (load tick repaired (run_proc tick repaired w p) loc u fl)) q = q_db (run_proc tick repaired w p) q.
 Proof.
-  intros tick CS w R p i g Hp Ha _ u loc fl q Hu Hl Hq. apply coherent_load; try assumption. apply R_proc; assumption.
+  intros tick CS w R p i g Hp Ha _ u loc fl q Hu Hl. apply coherent_load_served; try assumption. apply R_proc; assumption.
 Qed.
 Print Assumptions crash_between_db_and_cache_detected.
 
@@ -173,10 +180,11 @@ Theorem crash_detected_whatever_the_user_tag_switches : forall tick, clock_stric
   forall vr, base_repaired vr -> forall w, reachable_nut tick vr w ->
   forall p i g, p_user p <> upsdb -> (p_admin p = true -> p_ops p = []) -> forallb base_pop (p_ops p) = true ->
   p_crash p = Some (i, g, true) ->
-  forall u loc fl q, u <> upsdb -> loc = u \/ loc = upsdb -> In (q_flavor q) (fallbacks fl) ->
-  q_cache (snd (load tick vr (run_proc tick vr w p) loc u fl)) q = q_db (run_proc tick vr w p) q.
+  forall u loc fl q, u <> upsdb -> loc = u \/ loc = upsdb ->
+  q_served (fst (load tick vr (run_proc tick vr w p) loc u fl)) (snd (load tick vr (run_proc tick vr w p) loc u fl)) q
+    = q_db (run_proc tick vr w p) q.
 Proof.
-  intros tick CS vr B w R p i g Hp Ha Hb _ u loc fl q Hu Hl Hq.
+  intros tick CS vr B w R p i g Hp Ha Hb _ u loc fl q Hu Hl.
   apply coherent_whatever_the_user_tag_switches; try assumption. apply RN_proc; assumption.
 Qed.
 Print Assumptions crash_detected_whatever_the_user_tag_switches.
@@ -188,10 +196,12 @@ Print Assumptions crash_detected_whatever_the_user_tag_switches.
 Theorem user_tag_crash_detected : forall tick, clock_strict tick ->
   forall w, reachable tick repaired w ->
   forall p i g, p_user p <> upsdb -> (p_admin p = true -> p_ops p = []) -> p_crash p = Some (i, g, true) ->
-  forall u fl q, u <> upsdb -> In (uq_flavor q) (fallbacks fl) ->
-  uq_cache (snd (load tick repaired (run_proc tick repaired w p) u u fl)) q = uq_db (run_proc tick repaired w p) u q.
+  forall u fl q, u <> upsdb ->
+  In (uq_flavor q) (fallbacks fl) \/ (forall s n, db_cfile (w_db (run_proc tick repaired w p)) s (n, uq_tag q) = None) ->
+  uq_served (fst (load tick repaired (run_proc tick repaired w p) u u fl))
+            (snd (load tick repaired (run_proc tick repaired w p) u u fl)) u q = uq_db (run_proc tick repaired w p) u q.
 Proof.
-  intros tick CS w R p i g Hp Ha _ u fl q Hu Hq. apply ucoherent_load; try assumption. apply R_proc; assumption.
+  intros tick CS w R p i g Hp Ha _ u fl q Hu Hq. apply ucoherent_load_served; try assumption. apply R_proc; assumption.
 Qed.
 Print Assumptions user_tag_crash_detected.
 
@@ -532,14 +542,15 @@ Example crash_detected_example :
   q_cache (snd (load S repaired w u1 u1 g)) (QDeclared s1 a (lit "2.0") g) = ABool true.
 Proof. vm_compute. split; reflexivity. Qed.
 
-(* the flavor hypothesis is needed: an instance of flavor Linux64 that loaded from its cache
-   files holds nothing about Darwin and answers that a Darwin declaration is not there *)
+(* the pinned lookups take a flavor that was not loaded for a flavor without products: an instance of flavor
+   Linux64 that loaded from its cache files holds nothing about Darwin and answers that a Darwin declaration is
+   not there (D34); the repaired ones read the database files for that flavor *)
 Definition w_foreign : world :=
   run_proc S repaired
     (run_proc S repaired (run_proc S repaired w0 (P u1 D [decl D "1.0"])) (P u1 L [decl L "2.0"]))
     (P u1 L []).
 
-Example unconsulted_flavor_not_served :
+Example coherent_refuted_pinned_unloaded_flavor :
   reachable S repaired w_foreign /\ ~ In D (fallbacks L) /\
   q_cache (snd (load S repaired w_foreign u1 u1 L)) (QDeclared s1 a (lit "1.0") D) = ABool false /\
   q_db w_foreign (QDeclared s1 a (lit "1.0") D) = ABool true.
@@ -547,3 +558,8 @@ Proof.
   split; [unfold w_foreign; reach|].
   split; [intros [H|[H|[]]]; discriminate|]. vm_compute. split; reflexivity.
 Qed.
+
+Example unloaded_flavor_repaired :
+  q_served (fst (load S repaired w_foreign u1 u1 L)) (snd (load S repaired w_foreign u1 u1 L)) (QDeclared s1 a (lit "1.0") D)
+    = ABool true.
+Proof. vm_compute. reflexivity. Qed.
